@@ -24,6 +24,7 @@ SUITE_MODULES = {
     "typestate": "StreamTSC", "request": "SessionC",
     "session": "E2C", "control": "E2C", "control_cut": "E2C", "streams": "E2C", "foreign": "E2C",
     "unknown_uni": "E2C", "stall": "E2C", "pace": "E2C", "emit": "E2C", "signals": "E2C", "wdgram": "E2C", "client": "E2C", "pair": "E2C", "requests": "E2C", "credit": "E2C",
+    "trace": "E3C", "cell": "E3C",
     "pin": "E4C", "digest": "E4C", "pem": "E4C", "identity": "E4C", "bind": "E4C", "idle": "E4C", "alpn": "E4C", "reload": "E4C",
     "wire": "WireC", "settings": "WireC", "dgram": "WireC", "capsule": "WireC", "ids": "WireC", "status": "WireC",
 }
@@ -217,8 +218,8 @@ PROPS["C05"] = {
 
 PROPS["C07"] = {
     "title": "Streams are independent: a stalled stream never blocks the others",
-    "corr_modules": ["E2C"],
-    "suites": [("e2", "stall", ["debug"]), ("e2", "credit", ["debug"])],
+    "corr_modules": ["E2C", "E3C"],
+    "suites": [("e2", "stall", ["debug"]), ("e2", "credit", ["debug"]), ("e2", "trace", ["debug"])],
     "technique": PROOF_TECH,
     "level_text": "theorems on the hand-off transition system for every capacity, every number of stalled streams and every interleaving: no stalled stream disables the worker, another stream's task or the application; a healthy stream is delivered by a bounded plan using only its own and worker/app steps; the pinned design is refuted (one stalled stream blocks all); tie: k stalled streams of either kind at each stall position followed by healthy ones against the running driver",
     "level_note": CODEC_NOTE + WIRE_NOTE + "; liveness is bounded steps of the model under its scheduler; tokio wake-ups are observed, not modelled",
@@ -229,8 +230,8 @@ PROPS["C07"] = {
 
 PROPS["C08"] = {
     "title": "Every peer-opened stream is delivered exactly once at any acceptance pace",
-    "corr_modules": ["E2C"],
-    "suites": [("e2", "pace", ["debug"]), ("e2", "streams", ["debug"]), ("e2", "pair", ["debug"])],
+    "corr_modules": ["E2C", "E3C"],
+    "suites": [("e2", "pace", ["debug"]), ("e2", "streams", ["debug"]), ("e2", "pair", ["debug"]), ("e2", "trace", ["debug"])],
     "technique": PROOF_TECH,
     "level_text": "theorem (induction over arbitrary label sequences = all interleavings, all capacities): the opened streams are partitioned among accept queue, tasks, channel, delivered and ended -- none lost, duplicated or invented; cancelling an accept changes nothing; tie: 10-40 (thorough 120) streams with slow, multi-task and cancelling acceptors against the running driver",
     "level_note": CODEC_NOTE + WIRE_NOTE + "; tokio's documented cancel safety of mpsc::Receiver::recv and Mutex::lock is trusted",
@@ -241,8 +242,8 @@ PROPS["C08"] = {
 
 PROPS["C09"] = {
     "title": "Termination is prompt, total and never misattributed",
-    "corr_modules": ["E2C"],
-    "suites": [("e2", "session", ["debug"]), ("e2", "pair", ["debug"]), ("e2", "requests", ["debug"])],
+    "corr_modules": ["E2C", "E3C"],
+    "suites": [("e2", "session", ["debug"]), ("e2", "pair", ["debug"]), ("e2", "requests", ["debug"]), ("e2", "cell", ["debug"])],
     "technique": PROOF_TECH,
     "level_text": "theorems: the result cell is set at most once and every later get returns that value; each reported error names the actual cause (peer code+reason, local H3 error, transport cause, or local close); the worker closes with the code of the cause; tie: every way the session stream / connection ends x pending and subsequent calls against the running driver (none hangs, none succeeds, none panics)",
     "level_note": CODEC_NOTE + WIRE_NOTE + "; 'bounded time' is bounded model steps; a runtime shut down under the worker is outside the model",
